@@ -62,8 +62,22 @@ def die_with_parent():
         pass
 
 
+def limit_memory():
+    '''
+    a runaway allocation (e.g. a seeded change that makes a set grow without end) must end as a MemoryError in
+    this worker, not as the kernel's out-of-memory killer picking processes of other runs
+    '''
+    try:
+        import resource
+        cap = int(os.environ.get('VERIF_WORKER_MEMORY_GB', '3')) * 1024 ** 3
+        resource.setrlimit(resource.RLIMIT_AS, (cap, cap))
+    except Exception:
+        pass
+
+
 def main():
     die_with_parent()
+    limit_memory()
     args = json.loads(sys.argv[1])
     here = os.path.dirname(os.path.dirname(os.path.abspath(__file__)))
     deps = os.path.join(here, '.deps')
